@@ -134,11 +134,13 @@ package aggregation
 // ret is slice with ele inserted at position idx (elements behind it shifted by one)
 //@ func insertAti64
 //@   requires 0 <= idx && idx <= len(slice)
+//@   modifies slice[0:cap(slice)]
 //@   ensures len(ret) == len(slice) + 1 && ret[idx] == ele
 //@   ensures forall k in [0, idx) :: ret[k] == old(slice[k])
 //@   ensures forall k in [idx + 1, len(ret)) :: ret[k] == old(slice[k - 1])
 //@ func insertAt
 //@   requires 0 <= idx && idx <= len(slice)
+//@   modifies slice[0:cap(slice)]
 //@   ensures len(ret) == len(slice) + 1 && ret[idx] == ele
 //@   ensures forall k in [0, idx) :: ret[k] == old(slice[k])
 //@   ensures forall k in [idx + 1, len(ret)) :: ret[k] == old(slice[k - 1])
@@ -146,6 +148,7 @@ package aggregation
 //@ pred sorted_strict(a) := forall i in [0, len(a)) :: forall j in [i + 1, len(a)) :: a[i] < a[j]
 //@ func insertAlphanumeric
 //@   requires sorted_strict(slice) && (forall k in [0, len(slice)) :: slice[k] != ele)
+//@   modifies slice[0:cap(slice)]
 //@   ensures 0 <= idx && idx <= len(slice) && len(ret) == len(slice) + 1 && ret[idx] == ele
 //@   ensures forall k in [0, idx) :: ret[k] == old(slice[k]) && old(slice[k]) < ele
 //@   ensures forall k in [idx + 1, len(ret)) :: ret[k] == old(slice[k - 1]) && ele < old(slice[k - 1])
@@ -202,3 +205,38 @@ package aggregation
 //@   requires wf_num(s)
 //@   pure
 //@   ensures real(nm_n(s)) * result == nm_sum(s)
+
+// ---- SubKeyCounter ----
+// representation invariant: subKeys is strictly sorted, subKeyIdx is exactly its inverse (name ->
+// position), and every row carries one value column per sub-key.
+//@ pred wf_skidx(s) := s.subKeyIdx != nil && sorted_strict(s.subKeys)
+//@      && (forall k: str :: in_dom(s.subKeyIdx, k) ==> 0 <= map_get(s.subKeyIdx, k) && map_get(s.subKeyIdx, k) < len(s.subKeys) && s.subKeys[map_get(s.subKeyIdx, k)] == k)
+//@      && (forall i in [0, len(s.subKeys)) :: in_dom(s.subKeyIdx, s.subKeys[i]) && map_get(s.subKeyIdx, s.subKeys[i]) == i)
+//@ pred wf_skrows_n(s, n) := s.matches != nil
+//@      && (forall k: str :: in_dom(s.matches, k) ==> map_get(s.matches, k) != nil && allocated(map_get(s.matches, k)) && len(map_get(s.matches, k).submatches) == n)
+//@      && (forall a: str :: forall b: str :: in_dom(s.matches, a) && in_dom(s.matches, b) && a != b ==> map_get(s.matches, a) != map_get(s.matches, b))
+//@ pred wf_skrows(s) := wf_skrows_n(s, len(s.subKeys))
+//@ func NewSubKeyCounter
+//@   ensures wf_skidx(result) && wf_skrows(result) && len(result.subKeys) == 0 && (forall k: str :: !in_dom(result.matches, k))
+//@ func (*SubKeyCounter).getOrCreateSubkeyIndex
+//@   requires wf_skidx(s) && wf_skrows(s)
+//@   ensures wf_skidx(s)
+//@   ensures [position] 0 <= result && result < len(s.subKeys) && s.subKeys[result] == subkey
+//@   ensures [known] old(in_dom(s.subKeyIdx, subkey)) ==> len(s.subKeys) == old(len(s.subKeys)) && (forall i in [0, len(s.subKeys)) :: s.subKeys[i] == old(s.subKeys[i]))
+//@   ensures [inserted] !old(in_dom(s.subKeyIdx, subkey)) ==> len(s.subKeys) == old(len(s.subKeys)) + 1 && (forall i in [0, result) :: s.subKeys[i] == old(s.subKeys[i])) && (forall i in [result + 1, len(s.subKeys)) :: s.subKeys[i] == old(s.subKeys[i - 1]))
+//@   loop 1 invariant ref(rangeslice()) == ref(s.subKeys) && off(rangeslice()) == off(s.subKeys) && len(rangeslice()) == len(s.subKeys)
+//@   loop 1 invariant sorted_strict(s.subKeys) && s.subKeyIdx == old(s.subKeyIdx) && len(s.subKeys) == old(len(s.subKeys)) + 1 && 0 <= idx && idx < len(s.subKeys) && s.subKeys[idx] == subkey
+//@   loop 1 invariant (forall i in [0, idx) :: s.subKeys[i] == old(s.subKeys[i])) && (forall i in [idx + 1, len(s.subKeys)) :: s.subKeys[i] == old(s.subKeys[i - 1]))
+//@   loop 1 invariant forall j in [0, rangeindex + 1) :: in_dom(s.subKeyIdx, s.subKeys[j]) && map_get(s.subKeyIdx, s.subKeys[j]) == j
+//@   loop 1 invariant forall k: str :: in_dom(s.subKeyIdx, k) ==> k == subkey || old(in_dom(s.subKeyIdx, k))
+//@   loop 1 invariant forall k: str :: old(in_dom(s.subKeyIdx, k)) ==> in_dom(s.subKeyIdx, k)
+//@   loop 1 invariant wf_skrows_n(s, len(s.subKeys) - 1)
+//@   loop 2 invariant wf_skidx(s) && s.matches != nil && len(s.subKeys) == old(len(s.subKeys)) + 1 && 0 <= idx && idx < len(s.subKeys) && s.subKeys[idx] == subkey
+//@   loop 2 invariant (forall i in [0, idx) :: s.subKeys[i] == old(s.subKeys[i])) && (forall i in [idx + 1, len(s.subKeys)) :: s.subKeys[i] == old(s.subKeys[i - 1]))
+//@   loop 2 invariant forall k: str :: in_dom(s.matches, k) ==> map_get(s.matches, k) != nil && allocated(map_get(s.matches, k))
+//@   loop 2 invariant forall a: str :: forall b: str :: in_dom(s.matches, a) && in_dom(s.matches, b) && a != b ==> map_get(s.matches, a) != map_get(s.matches, b)
+//@   loop 2 invariant forall k: str :: in_dom(s.matches, k) ==> len(map_get(s.matches, k).submatches) == (if visited_in(2, k) then len(s.subKeys) else len(s.subKeys) - 1)
+//@   ensures [rows] wf_skrows(s)
+// a new sub-key shifts the positions of the ones sorted after it by one, and nothing else
+//@   ensures [shift] forall k: str :: old(in_dom(s.subKeyIdx, k)) ==> in_dom(s.subKeyIdx, k) && map_get(s.subKeyIdx, k) == old(map_get(s.subKeyIdx, k)) + (if !old(in_dom(s.subKeyIdx, subkey)) && old(map_get(s.subKeyIdx, k)) >= result then 1 else 0)
+//@   ensures [dom] forall k: str :: in_dom(s.subKeyIdx, k) == (old(in_dom(s.subKeyIdx, k)) || k == subkey)
